@@ -19,6 +19,12 @@ func init() {
 		Rules: []Rule{
 			{ID: "C02.a", Template: "T-ONCE", Required: true, Run: ruleC02a,
 				Doc: "Exactly one outcome per dispatch: a missing return runs a function after an error response; a dropped branch answers nothing."},
+			{ID: "C02.i", Template: "T-ONCE", Required: true, Run: ruleC02i,
+				Doc: "Every other entry point of the container (ServeHTTP, Dispatch, the closures registered by Handle/HandleWithFilter) hands the request on exactly once on every path: to the mux, the dispatcher, the plain handler or a chain - or answers 500 when the encoder cannot be installed. A dropped call on a rarely taken branch (writer already compressing, no container filters) leaves the request without any outcome."},
+			{ID: "C02.j", Template: "T-GUARD", Required: true, Run: ruleC02j,
+				Doc: "A selector refuses (404) exactly when the previous step found nothing: the refusal is decided by 'no service' / 'helper returned an error' / 'no candidate', and the continuation runs under the complementary condition. A flipped test answers 404 for every routable URL, or walks on with a nil service."},
+			{ID: "C02.k", Template: "T-SINK", Required: true, Run: ruleC02k,
+				Doc: "Indexing that request data can make fail: the first element of a candidate list is read only where the list was found non-empty, and the last group of a regular-expression match only where the match is non-nil."},
 			{ID: "C02.b", Template: "T-ORDER", Required: true, Run: ruleC02b,
 				Doc: "Stage order and status mapping. Swapped precedence (415 before 405), a wrong code or an error the dispatcher does not understand (a plain error produces no response at all) survive the eight single-route error tests."},
 			{ID: "C02.c", Template: "T-ORDER", Required: true, Run: ruleC02c,
@@ -213,6 +219,22 @@ func ruleC02b(c *Ctx) {
 			}
 		}
 		c.check(okCode, name, "status for an empty "+stageName[stage]+" stage", p.ipos(r), "code "+itoa(int(code)), "an empty "+stageName[stage]+" stage answers "+itoa(int(code))+", expected one of "+intsString(want[stage]))
+		if stage == 3 {
+			// 415 for a foreign Content-Type only when a body is sent
+			body := false
+			for f := range facts[r.Block()] {
+				bo, ok := f.Cond.(*ssa.BinOp)
+				if !ok || !f.Pol || bo.Op != token.GTR {
+					continue
+				}
+				if _, fld, ok := fieldLoad(strip(bo.X)); ok && fld.Name() == "ContentLength" {
+					if n0, ok := constInt(bo.Y); ok && n0 == 0 {
+						body = true
+					}
+				}
+			}
+			c.check(body, name, "415 at the Content-Type stage only when a body is sent", p.ipos(r), "dominated by ContentLength > 0", "the Content-Type stage answers 415 although no body is sent (or only then does not): the decision is not tied to ContentLength > 0")
+		}
 	}
 	for s := 1; s <= 4; s++ {
 		if !seenStage[s] {
@@ -953,4 +975,272 @@ func onlyServiceErrors(p *Program, fn *ssa.Function, idx int, depth int, why *st
 		}
 	}
 	return true
+}
+
+// ---------------------------------------------------------------------------
+
+func ruleC02i(c *Ctx) {
+	p := c.P
+	ds, _ := findDispatchers(p)
+	isDisp := map[*ssa.Function]bool{}
+	for _, d := range ds {
+		isDisp[d.Fn] = true
+	}
+	n := 0
+	for _, fn := range p.requestPathFuncs() {
+		if requestShape(fn.Signature) != "http-handler" || isDisp[fn] || recvTypeName(topFunc(fn)) != "Container" {
+			continue
+		}
+		sites := map[ssa.Instruction]bool{}
+		var desc []string
+		eachInstr(fn, func(i ssa.Instruction) {
+			cc := callCommon(i)
+			if cc == nil {
+				return
+			}
+			if _, isDefer := i.(*ssa.Defer); isDefer {
+				return
+			}
+			switch {
+			case cc.IsInvoke() && cc.Method.Name() == "ServeHTTP":
+				sites[i] = true
+				desc = append(desc, "handler at "+p.ipos(i))
+			case calleeName(cc) == "(*net/http.ServeMux).ServeHTTP":
+				sites[i] = true
+				desc = append(desc, "mux at "+p.ipos(i))
+			case isProcessFilterCall(i):
+				sites[i] = true
+				desc = append(desc, "chain at "+p.ipos(i))
+			case cc.IsInvoke() && cc.Method.Name() == "WriteHeader" && isHTTPResponseWriter(cc.Value.Type()):
+				sites[i] = true
+				desc = append(desc, "status at "+p.ipos(i))
+			case cc.StaticCallee() != nil && isDisp[cc.StaticCallee()]:
+				sites[i] = true
+				desc = append(desc, "dispatcher at "+p.ipos(i))
+			}
+		})
+		if len(sites) == 0 {
+			continue
+		}
+		n++
+		min, max, ok := countOnPaths(fn, nil, sites)
+		c.check(ok && min == 1 && max == 1, p.fname(fn), "the request is handed on exactly once on every path", p.pos(fn.Pos()),
+			strings.Join(desc, "; ")+"; min = max = 1", "hand-offs per request: min="+itoa(min)+" max="+maxStr(max)+" over "+strings.Join(desc, "; ")+" (on some path the request gets no outcome, or two)")
+	}
+	c.count("entry_points", n)
+}
+
+// absenceFact: the fact says "the previous selection step found nothing".
+func absenceFact(p *Program, f condFact) string {
+	bo, ok := f.Cond.(*ssa.BinOp)
+	if !ok || !f.Pol {
+		return ""
+	}
+	x, y := strip(bo.X), strip(bo.Y)
+	// svc == nil / err != nil on results of module helpers
+	if isNilConst(y) {
+		if ex, ok := x.(*ssa.Extract); ok {
+			if call, ok := ex.Tuple.(*ssa.Call); ok && call.Call.StaticCallee() != nil && p.inModule(call.Call.StaticCallee()) {
+				if bo.Op == token.NEQ && isErrorType(ex.Type()) {
+					return "error from " + call.Call.StaticCallee().Name()
+				}
+				if bo.Op == token.EQL && !isErrorType(ex.Type()) {
+					return "nothing from " + call.Call.StaticCallee().Name()
+				}
+			}
+		}
+		if call, ok := x.(*ssa.Call); ok && call.Call.StaticCallee() != nil && p.inModule(call.Call.StaticCallee()) && bo.Op == token.EQL {
+			return "nothing from " + call.Call.StaticCallee().Name()
+		}
+	}
+	// len(candidates) == 0
+	if call, ok := x.(*ssa.Call); ok && isBuiltinCall(call, "len") {
+		if n, ok := constInt(y); ok && ((bo.Op == token.EQL && n == 0) || (bo.Op == token.LEQ && n == 0) || (bo.Op == token.LSS && n == 1)) {
+			return "empty " + typeShort(call.Call.Args[0].Type())
+		}
+	}
+	return ""
+}
+
+func ruleC02j(c *Ctx) {
+	p := c.P
+	n := 0
+	for _, fn := range selectorImpls(p) {
+		name := p.fname(fn)
+		facts := factsAt(fn)
+		type refusal struct {
+			ret  *ssa.Return
+			cond ssa.Value
+			pol  bool
+			at   *ssa.BasicBlock
+		}
+		var refusals []refusal
+		var forwards []*ssa.Return
+		for _, r := range returnsOf(fn) {
+			if len(r.Results) < 3 || r.Block().Comment == "recover" {
+				continue
+			}
+			direct := false
+			for _, s := range p.sources(r.Results[2], provDefault) {
+				if _, isSE, _, _ := serviceErrorCode(p, s); isSE {
+					direct = true
+				}
+			}
+			if !direct {
+				forwards = append(forwards, r)
+				continue
+			}
+			// the deciding condition: nearest dominating If
+			var dc ssa.Value
+			var dpol bool
+			var dblock *ssa.BasicBlock
+			for b := r.Block(); b != nil; b = b.Idom() {
+				id := b.Idom()
+				if id == nil {
+					break
+				}
+				if iff, ok := id.Instrs[len(id.Instrs)-1].(*ssa.If); ok && id.Succs[0] != id.Succs[1] {
+					t := id.Succs[0].Dominates(r.Block()) && (len(id.Succs[0].Preds) == 1)
+					f := id.Succs[1].Dominates(r.Block()) && (len(id.Succs[1].Preds) == 1)
+					if t != f {
+						if _, isTrace := traceCond(iff.Cond); isTrace {
+							continue
+						}
+						dc, dpol, dblock = iff.Cond, t, id
+						break
+					}
+				}
+			}
+			n++
+			if dc == nil {
+				c.bad(name, "refusal is conditioned on the previous step finding nothing", p.ipos(r), "the 404 is returned unconditionally")
+				continue
+			}
+			why := ""
+			m := map[condFact]bool{}
+			addCondFacts(m, dc, dpol)
+			deriveFacts(m)
+			for f := range m {
+				if a := absenceFact(p, f); a != "" {
+					why = a
+				}
+			}
+			c.check(why != "", name, "refusal is decided by the previous step finding nothing", p.ipos(r), "decided by: "+why,
+				"the 404 is decided by a condition that does not say 'nothing was found' (a flipped or constant test): routable URLs are refused, or an empty result walks on")
+			if why != "" {
+				refusals = append(refusals, refusal{r, dc, dpol, dblock})
+			}
+		}
+		// the continuation runs under the complement of every refusal condition
+		for _, fw := range forwards {
+			for _, rf := range refusals {
+				comp := false
+				m := map[condFact]bool{}
+				addCondFacts(m, rf.cond, !rf.pol)
+				deriveFacts(m)
+				for f := range m {
+					if facts[fw.Block()][f] {
+						comp = true
+					}
+				}
+				// only refusals that precede this return matter
+				if rf.at == nil || !rf.at.Dominates(fw.Block()) {
+					continue
+				}
+				n++
+				c.check(comp, name, "selection continues only when the previous step found something", p.ipos(fw), "the complement of the refusal condition at "+p.ipos(rf.ret)+" holds here",
+					"the selector goes on although the refusal condition at "+p.ipos(rf.ret)+" may hold: a nil service or an empty candidate list is used")
+			}
+		}
+	}
+	c.count("refusal_conditions", n)
+}
+
+func ruleC02k(c *Ctx) {
+	p := c.P
+	n := 0
+	exempt := map[string]string{
+		"(RouterJSR311).ExtractParameters": "the binder runs only for a (service, route) pair the same expressions have just matched on the same path (RouterJSR311 is both selector and binder): FindStringSubmatch cannot return nil here",
+	}
+	for _, fn := range p.requestPathFuncs() {
+		name := p.fname(fn)
+		facts := factsAt(fn)
+		cyc := blocksOnCycles(fn)
+		eachInstr(fn, func(i ssa.Instruction) {
+			ia, ok := i.(*ssa.IndexAddr)
+			if !ok {
+				return
+			}
+			x := strip(ia.X)
+			nonEmpty := func() bool {
+				for f := range facts[i.Block()] {
+					bo, ok := f.Cond.(*ssa.BinOp)
+					if !ok || !f.Pol {
+						continue
+					}
+					if strip(bo.X) == x && bo.Op == token.NEQ && isNilConst(bo.Y) {
+						return true
+					}
+					if call, ok := strip(bo.X).(*ssa.Call); ok && isBuiltinCall(call, "len") && sameSliceValue(p, call.Call.Args[0], x) {
+						if n0, ok := constInt(bo.Y); ok && ((bo.Op == token.NEQ && n0 == 0) || (bo.Op == token.GTR && n0 == 0) || (bo.Op == token.GEQ && n0 == 1)) {
+							return true
+						}
+					}
+				}
+				return false
+			}
+			// (1) last group of a regexp match
+			if src, ok := lastElementOf(&ssa.UnOp{Op: token.MUL, X: ia}); ok {
+				if call, ok := src.(*ssa.Call); ok && calleeName(&call.Call) == "(*regexp.Regexp).FindStringSubmatch" {
+					n++
+					if why, ok := exempt[name]; ok {
+						c.note(name, "last group of an unchecked match", p.ipos(i), "exempt: "+why)
+						return
+					}
+					c.check(nonEmpty(), name, "last group of a match is read only when the match is non-nil", p.ipos(i), "dominated by matches != nil",
+						"matches[len(matches)-1] is evaluated although FindStringSubmatch may have returned nil: index -1 panics the dispatch for a URL that does not match")
+				}
+				return
+			}
+			// (2) element 0 of a candidate collection outside a loop over it
+			if k, ok := constInt(ia.Index); ok && k == 0 && (isCandidateSliceType(ia.X.Type()) || isModuleStructSlice(p, ia.X.Type())) && !cyc[i.Block()] {
+				if _, isAlloc := x.(*ssa.Alloc); isAlloc {
+					return
+				}
+				if sl, isSl := x.(*ssa.Slice); isSl {
+					if _, isArr := sl.X.(*ssa.Alloc); isArr {
+						return // literal
+					}
+				}
+				n++
+				c.check(nonEmpty(), name, "first candidate is read only from a non-empty list", p.ipos(i), "dominated by len(list) != 0",
+					"candidates[0] is evaluated although the list may be empty: the dispatch panics instead of answering 404")
+			}
+		})
+	}
+	c.count("guarded_index_sites", n)
+}
+
+// sameSliceValue: a and b denote the same slice (identity, or two loads of the same field of the same object).
+func sameSliceValue(p *Program, a, b ssa.Value) bool {
+	a, b = strip(a), strip(b)
+	if a == b {
+		return true
+	}
+	ba, fa, oka := fieldLoad(a)
+	bb, fb, okb := fieldLoad(b)
+	return oka && okb && fa == fb && strip(ba) == strip(bb)
+}
+
+func isModuleStructSlice(p *Program, t types.Type) bool {
+	sl, ok := t.Underlying().(*types.Slice)
+	if !ok {
+		return false
+	}
+	n, ok := types.Unalias(sl.Elem()).(*types.Named)
+	if !ok || n.Obj().Pkg() != p.Restful.Pkg {
+		return false
+	}
+	_, isStruct := n.Underlying().(*types.Struct)
+	return isStruct
 }
